@@ -15,6 +15,10 @@ Node specs (lists, so they survive a JSON round trip):
   ["PY", kids]                   plain python list of children (nested-list argument)
   ["TU", kids]                   tuple of children
   ["NONE"]                       None
+  ["TS", text]                   text child of a str SUBCLASS type (custom __str__/__format__)
+  ["XT", result, text] / ["XD", result]   tagifiable str subclass / tagifiable HTMLDependency subclass
+  ["LSUB", kids] ["TLSUB", kids] ["NT", [a, b]]   list subclass / TagList subclass / namedtuple of children
+  ["FRAC"] ["DEC"]               Fraction / Decimal (not supported as children)
   ["XS", result]                 tagifiable returning the SAME stored expansion object on every call
   ["DUP", kids]                  [c, "-", c] with c one list object (same container twice)
   ["DI", info]                   HTMLDependency from a depinfo dict (hv/ref/deps.py)
@@ -98,6 +102,57 @@ class TagifRepr(Tagif):
 
     def _repr_html_(self):
         return self.markup
+
+
+class SubText(str):
+    """a text child whose type is a subclass of str and whose str()/format() are not its characters."""
+
+    def __str__(self):
+        return "<<STR>>"
+
+    def __format__(self, spec):
+        return "<<FMT>>"
+
+
+class SubList(list):
+    pass
+
+
+class SubTagList(TagList):
+    pass
+
+
+import collections as _collections
+PairNT = _collections.namedtuple("PairNT", ["first", "second"])
+
+
+class TagifText(str):
+    """a str subclass that is ALSO tagifiable (two protocols at once)."""
+
+    def __new__(cls, text, result_spec):
+        o = super().__new__(cls, text)
+        o.result_spec = result_spec
+        return o
+
+    def tagify(self):
+        r = build(self.result_spec)
+        if hasattr(r, "tagify") and not isinstance(r, (str, HTML, MetadataNode)):
+            r = r.tagify()
+        return r
+
+
+class TagifDep(HTMLDependency):
+    """an HTMLDependency subclass that is ALSO tagifiable."""
+
+    def __init__(self, result_spec):
+        super().__init__("tagif-dep-itself", "9.9")
+        self.result_spec = result_spec
+
+    def tagify(self):
+        r = build(self.result_spec)
+        if hasattr(r, "tagify") and not isinstance(r, (str, HTML, MetadataNode)):
+            r = r.tagify()
+        return r
 
 
 class TagifStored(Tagif):
@@ -229,6 +284,24 @@ def build(spec: Any) -> Any:
         return TagifRaw(spec[1])
     if k == "XS":
         return TagifStored(spec[1])
+    if k == "TS":
+        return SubText(spec[1])
+    if k == "XT":
+        return TagifText(spec[2], spec[1])
+    if k == "XD":
+        return TagifDep(spec[1])
+    if k == "LSUB":
+        return SubList(build(c) for c in spec[1])
+    if k == "TLSUB":
+        return SubTagList(*[build(c) for c in spec[1]])
+    if k == "NT":
+        return PairNT(build(spec[1][0]), build(spec[1][1]))
+    if k == "FRAC":
+        import fractions
+        return fractions.Fraction(1, 2)
+    if k == "DEC":
+        import decimal
+        return decimal.Decimal("1.5")
     if k == "DUP":
         c = [build(x) for x in spec[1]]
         return [c, "-", c]          # the same container object twice in one argument
